@@ -159,11 +159,12 @@ def run(report):
                     return
                 _, a, k = made
                 wc, wl = (want_code, want_latex) if has_subscript else (base_code, base_latex)
-                yield "clone-display-name:override-or-source's(+_subscript)", a[0] == wc
+                isstr = lambda v: z3.is_expr(v) and v.sort() == S
+                yield "clone-display-name:override-or-source's(+_subscript)", (a[0] == wc) if a and isstr(a[0]) else z3.BoolVal(False)
                 dpos = 1 + extra_pos
                 yield "clone-keeps-the-source-dimension", a[dpos] == src_dim if len(a) > dpos and z3.is_expr(a[dpos]) else z3.BoolVal(False)
                 kl = k.get("display_latex")
-                yield "clone-latex-name:override-or-source's(+_{subscript})", (kl == wl) if kl is not None and z3.is_expr(kl) else z3.BoolVal(False)
+                yield "clone-latex-name:override-or-source's(+_{subscript})", (kl == wl) if kl is not None and isstr(kl) else z3.BoolVal(False)
                 fwd = {x: y for x, y in k.items() if x != "display_latex"}
                 want = passed if passed else SRC_ASSUME
                 yield ("clone-assumptions:passed-ones" if passed else "clone-assumptions:source's-when-none-are-passed"), z3.BoolVal(fwd == want)
@@ -198,6 +199,83 @@ def run(report):
                         ("internal-name-is-a-fresh-generated-name(prefix-SYM)", z3.BoolVal(ctx.ghost.get("next_name_prefix") == "SYM" and ctx.ghost.get("sym_new") is not None and
                                                                                          ctx.ghost["sym_new"][0][1] is fresh)),
                         ("display-name-is-not-used-as-the-SymPy-name;assumptions-forwarded", z3.BoolVal(ctx.ghost.get("sym_new") is not None and ctx.ghost["sym_new"][1] == {"real": True}))]))
+    execs.append(ex)
+
+    # ---------------- coordinate systems: every construction / transform draws a fresh SYS name for a NEW inner system
+    csrc = "core/coordinate_systems/coordinate_systems.py"
+
+    def cs_exec():
+        rec = {}
+
+        def nn(ex, ctx, args, kw):
+            cc = ctx.fork()
+            cc.ghost["next_name_calls"] = list(cc.ghost.get("next_name_calls", [])) + [args[0]]
+            return [(cc, z3.String(f"fresh_name_{len(cc.ghost['next_name_calls'])}"))]
+
+        def coordsys3d(ex, ctx, args, kw):
+            cc = ctx.fork()
+            cc.ghost["inner_created"] = ("CoordSys3D", args[0])
+            return [(cc, Obj("CoordSys3D", {"name": args[0], "__new__": True}))]
+
+        def cs_ctor(ex, ctx, args, kw):
+            cc = ctx.fork()
+            cc.ghost["cs_ctor"] = tuple(args)
+            return [(cc, Obj("CoordinateSystem", {"_coord_system_type": args[0], "_coord_system": args[1] if len(args) > 1 else NONE, "__made__": True}))]
+
+        def method(ex, ctx, base, attr, args, kw):
+            if isinstance(base, Obj) and base.cls == "CoordSys3D" and attr == "create_new":
+                cc = ctx.fork()
+                cc.ghost["inner_created"] = ("create_new", args[0])
+                return [(cc, Obj("CoordSys3D", {"name": args[0], "__new__": True}))]
+            return None
+
+        def attr(ex, ctx, base, attr_):
+            if isinstance(base, TypeRef) and base.name == "CoordinateSystem":
+                if attr_ == "system_to_base_scalars":
+                    return [(ctx, Builtin("system_to_base_scalars", lambda ex, c, a, k: [(c, ("__names__", a[0]))]))]
+                if attr_ == "System":
+                    return [(ctx, TypeRef("CoordinateSystem.System"))]
+            if isinstance(base, TypeRef) and base.name == "CoordinateSystem.System":
+                return [(ctx, {"CARTESIAN": 0, "CYLINDRICAL": 1, "SPHERICAL": 2}[attr_])]
+            if isinstance(base, Obj) and base.cls == "CoordinateSystem" and attr_ == "coord_system":
+                return [(ctx, base.fields["_coord_system"])]
+            if isinstance(base, Obj) and base.cls == "CoordinateSystem" and attr_ == "coord_system_type":
+                return [(ctx, base.fields["_coord_system_type"])]
+            return None
+        gg = {"next_name": ("__contract__", "next_name"), "CoordSys3D": TypeRef("CoordSys3D"), "CoordinateSystem": TypeRef("CoordinateSystem")}
+        return FE.make_exec(csrc, UNIT, globals_extra=gg, contracts={"next_name": nn, "CoordSys3D": coordsys3d, "CoordinateSystem": cs_ctor},
+                            models={"__method__": method}, attr_model=attr)
+
+    ex = cs_exec()
+    src_type, new_type = z3.Int("from_type"), z3.Int("coord_system_type")
+    old_inner = Obj("CoordSys3D", {"name": z3.String("old_inner_name")})
+    from_sys = Obj("CoordinateSystem", {"_coord_system_type": src_type, "_coord_system": old_inner})
+
+    def post_ct(ex, ctx, out, info):
+        made = ctx.ghost.get("cs_ctor")
+        inner = ctx.ghost.get("inner_created")
+        names = ctx.ghost.get("next_name_calls", [])
+        ok = (out[0] == "return" and isinstance(out[1], Obj) and out[1].fields.get("__made__") and made is not None and inner is not None and inner[0] == "create_new"
+              and len(names) == 1 and names[0] == "SYS" and len(made) == 2 and isinstance(made[1], Obj) and made[1].fields.get("__new__") is True)
+        yield "returns-a-NEW-coordinate-system-over-a-freshly-named-inner-system(for-every-source-and-target-type,same-type-included)", z3.BoolVal(bool(ok))
+        if ok:
+            yield "new-system-has-the-requested-type", made[0] == new_type if z3.is_expr(made[0]) else z3.BoolVal(False)
+
+    verify_function(ex, "coordinates_transform", lambda ex, ctx: (ctx.assume(src_type >= 0, src_type <= 2, new_type >= 0, new_type <= 2), ([from_sys, new_type], {}, None))[1], post_ct)
+    execs.append(ex)
+
+    ex = cs_exec()
+    me_cs = Obj("CoordinateSystem", {})
+
+    def post_ci(ex, ctx, out, info):
+        o = ctx.env["self"]
+        inner = ctx.ghost.get("inner_created")
+        names = ctx.ghost.get("next_name_calls", [])
+        got = o.fields.get("_coord_system")
+        yield "without-inner:creates-a-freshly-named-CoordSys3D(prefix-SYS)", z3.BoolVal(bool(inner is not None and inner[0] == "CoordSys3D" and names == ["SYS"] and isinstance(got, Obj) and got.fields.get("__new__") is True))
+        yield "stores-the-type", o.fields.get("_coord_system_type") == new_type if z3.is_expr(o.fields.get("_coord_system_type")) else z3.BoolVal(False)
+
+    verify_function(ex, "CoordinateSystem.__init__", lambda ex, ctx: (ctx.assume(new_type >= 0, new_type <= 2), ([me_cs, new_type], {}, None))[1], post_ci)
     execs.append(ex)
 
     for ex in execs:
@@ -292,12 +370,42 @@ def bounded_aliasing(report):
         txt = print_expression(o)
         if any(p in txt for p in ("SYM", "FUN", "QTY")):
             failures.append({"name": "C09/bounded/internal-name-printed", "detail": txt, "replay": {"reproduced": True, "script": None}})
+    from symplyphysics.core.coordinate_systems.coordinate_systems import coordinates_transform
+    from symplyphysics.core.symbols.symbols import clone_as_indexed
+    c0 = CoordinateSystem()
+    for tgt in (CoordinateSystem.System.CARTESIAN, CoordinateSystem.System.CYLINDRICAL):
+        c1 = coordinates_transform(c0, tgt)
+        count += 1
+        if c1 is c0 or c1.coord_system == c0.coord_system or set(c1.coord_system.base_scalars()) & set(c0.coord_system.base_scalars()):
+            failures.append({"name": "C09/bounded/transformed-coordinate-system-aliases-its-source", "detail": str(tgt), "replay": {"reproduced": True, "script": None}})
+    i1, i2 = clone_as_indexed(objs[0]), clone_as_indexed(objs[0])
+    count += 2
+    if i1 == i2 or objs[0] in i1[1].free_symbols:
+        failures.append({"name": "C09/bounded/indexed-clones-alias", "detail": f"{i1!r} {i2!r}", "replay": {"reproduced": True, "script": None}})
     cs = [CoordinateSystem() for _ in range(4)]
     for a, b in itertools.combinations(cs, 2):
         count += 1
         if a.coord_system == b.coord_system:
             failures.append({"name": "C09/bounded/coordinate-systems-alias", "detail": "", "replay": {"reproduced": True, "script": None}})
+    for f_ in failures:
+        f_["replay"] = {"reproduced": True, "script": "from vf.props.c09_names import replay_bounded\nreplay_bounded()\n"}
     report.add_bounded("SymPy-level non-aliasing (==, hash, diff, subs, solve) and pretty printing of objects with colliding display names",
                        "48 symbols/quantities + 12 functions + 6 indexed + 4 coordinate systems, all named 'x'", count, not failures, failures)
     report.add_out_of_reach("non-aliasing under subs/solve/diff for all creation histories", "follows from fresh generated names (proved) plus SymPy's structural "
                             "equality of Symbol/Function/Quantity by (class, name, assumptions), which is external code: assumed, bounded stand-in only")
+
+
+def replay_bounded():
+    class Stub:
+        def __init__(self):
+            self.failures = []
+
+        def add_bounded(self, what, bound, count, clean, failures=None):
+            self.failures += failures or []
+
+        def add_out_of_reach(self, *a):
+            pass
+    st = Stub()
+    bounded_aliasing(st)
+    assert not st.failures, [(f["name"], f["detail"]) for f in st.failures]
+    print("no aliasing observed")
